@@ -45,6 +45,9 @@ OPS = [
     {"op": "setdefault", "k": 2, "d": 5}, {"op": "setdefault", "k": 3, "d": 0},
     {"op": "update", "arg": [{"k": 1, "v": 1}, {"k": 3, "v": 2}]}, {"op": "update", "arg": [{"k": 2, "v": 1}]},
     {"op": "popitem"}, {"op": "clear"}, {"op": "copy"},
+    # other argument forms of update (the specification sees the same pairs), a fourth key, a read of the third
+    {"op": "update", "arg": [{"k": 1, "v": 1}, {"k": 3, "v": 2}], "form": "dict"}, {"op": "update", "arg": [{"k": 2, "v": 1}, {"k": 3, "v": 3}], "form": "gen"},
+    {"op": "update", "arg": [{"k": 2, "v": 1}], "form": "ior"}, {"op": "setitem", "k": 4, "v": 4}, {"op": "getitem", "k": 3},
 ]
 # membership, len() and iteration are inherited dict reads that take no lock (the property's mechanism lists only the
 # locked methods); they can see the two dict writes of an evicting insert one at a time, so they are not used as
@@ -73,7 +76,16 @@ def apply(c, op):
         elif n == "setdefault":
             v = [dv(c.setdefault(K(op["k"]), V(op["d"])))]
         elif n == "update":
-            c.update([(K(p["k"]), V(p["v"])) for p in op["arg"]])
+            ps_ = [(K(p["k"]), V(p["v"])) for p in op["arg"]]
+            form = op.get("form", "pairs")
+            if form == "dict":
+                c.update(dict(ps_))
+            elif form == "gen":
+                c.update(p_ for p_ in ps_)
+            elif form == "ior":
+                c |= ps_
+            else:
+                c.update(ps_)
         elif n == "popitem":
             a, b = c.popitem()
             v = [dk(a), dv(b)]
@@ -226,11 +238,18 @@ def explore(job):
             if key not in seen:
                 seen[key] = {"cfg": cfg, "init": init, "ev": ev, "plan": sorted(plan.items()), "first": first,
                              "programs": programs}
-            if depth < B:
-                last = max(plan) if plan else -1
-                for (step, cur, runnable) in s.trace_choices:
-                    if step <= last or cur < 0:
-                        continue
+            last = max(plan) if plan else -1
+            for (step, cur, runnable, forced) in s.trace_choices:
+                if step <= last:
+                    continue
+                if forced and len(runnable) > 1:
+                    # the running thread finished or blocked: every other thread may go on, at no cost in pre-emptions
+                    # (with three threads this is what produces orders such as 2, 1, 0)
+                    for j in runnable[1:]:
+                        p2 = dict(plan)
+                        p2[step] = j
+                        frontier.append((p2, first))
+                elif depth < B and cur >= 0:
                     for j in runnable:
                         if j != cur:
                             p2 = dict(plan)
@@ -244,8 +263,9 @@ def explore(job):
 def jobs(tier, seed):
     rng = random.Random(seed)
     out = []
-    cfgs = [{"m": m, "lru": lru, "om": 0} for m in (1, 2) for lru in (False, True)]
-    inits = [[], [{"k": 1, "v": 4}], [{"k": 1, "v": 4}, {"k": 2, "v": 5}], [{"k": 2, "v": 5}, {"k": 1, "v": 4}]]
+    cfgs = [{"m": m, "lru": lru, "om": 0} for m in (1, 2, 3) for lru in (False, True)]
+    inits = [[], [{"k": 1, "v": 4}], [{"k": 1, "v": 4}, {"k": 2, "v": 5}], [{"k": 2, "v": 5}, {"k": 1, "v": 4}],
+             [{"k": 2, "v": 5}, {"k": 3, "v": 1}, {"k": 1, "v": 4}]]      # three items: a ring with a middle link
     pairs = list(itertools.product(range(len(OPS)), repeat=2))
     rng.shuffle(pairs)
     npairs = len(pairs) if tier == "thorough" else 70
@@ -276,10 +296,12 @@ def jobs(tier, seed):
         cfg["om"] = rng.choice([0, 0, 0, 1, 2])
         progs = [[rng.choice(OPS) for _ in range(rng.randint(1, 2))] for _ in range(2)]
         out.append((cfg, rng.choice(inits), progs, 1))
-    for _ in range(60 if tier == "thorough" else 5):       # three threads
+    for _ in range(60 if tier == "thorough" else 16):      # three threads
         cfg = dict(rng.choice(cfgs))
         progs = [[rng.choice(OPS)] for _ in range(3)]
-        out.append((cfg, rng.choice(inits), progs, 1))
+        # quick: every order in which the three can take turns at completion / blocking points, no pre-emption
+        # (one three-thread program with a pre-emption costs ~850 executions)
+        out.append((cfg, rng.choice(inits), progs, 1 if tier == "thorough" else 0))
     return out
 
 
